@@ -287,6 +287,23 @@ func (env *specEnv) ident(x *ast.Ident) Val {
 	}
 	switch o := obj.(type) {
 	case *types.Var:
+		// inside the body (invariants, asserts) a parameter name denotes the parameter's variable as it is
+		// now (Go parameters are mutable locals); old(p) and pre/postconditions denote the entry value
+		if env.fr != nil && !env.inOld {
+			for _, pv := range env.bc.Params {
+				if pv == o {
+					if a := env.fr.findLocal(pv.Name(), pv.Type()); a != nil {
+						if env.fr.isReg[a] {
+							if v, ok := env.st.cells[a]; ok {
+								return v
+							}
+						} else if at, ok := env.fr.vals[a].(*Term); ok {
+							return u.load(env.st, at, pv.Type())
+						}
+					}
+				}
+			}
+		}
 		if v, ok := env.vars[o]; ok {
 			return v
 		}
